@@ -67,6 +67,15 @@ def instances(tier, seed):
                     dmax=3.4, cost=20))
     out.append(dict(name="bond:Zn-O:dir0:narrow-o:two-images", family='bond', pair=('Zn', 'O'), dir=0, cell='narrow-o', axes=[1], other=(0.95, 0.6, 0.3), third=False,
                     dmax=3.7, swap=True, cost=20))
+    # an atom whose own periodic image lies within its own cutoff (K: 2 x 2.03 A in a 3.9 A cell): still only pairs i<j
+    out.append(dict(name="bond:K-O:dir1:narrow-o:own-image-within-own-cutoff", family='bond', pair=('K', 'O'), dir=1, cell='narrow-o', axes=[0], other=(0.2, 0.6, 0.3), third=False,
+                    dmax=3.7, cost=20))
+    out.append(dict(name="bond:O-K:dir2:narrow-o:own-image-within-own-cutoff", family='bond', pair=('O', 'K'), dir=2, cell='narrow-o', axes=[2], other=(0.7, 0.1, 0.3), third=False,
+                    dmax=3.7, swap=True, cost=20))
+    # the cutoff itself is excluded ("below"): same-element metal pairs along x from the origin without a cell, where 2r, the separation and
+    # the computed distance are all exact in binary floating point, so the EXACT rule (no slack) is decidable and replayable
+    for pr in (('Fe', 'Fe'), ('Li', 'Li'), ('K', 'K')):
+        out.append(dict(name=f"bond:{pr[0]}-{pr[1]}:exact-boundary:nocell", family='bond', pair=pr, dir=0, cell=None, axes=[], other=(0, 0, 0), third=False, exact=True, cost=2))
     # histories on one object lineage: detect, change the cell (replicate / assign), detect again == detection on a freshly built copy
     for j, (how, cell, di) in enumerate([('replicate', 'o1', 0), ('assign', 't1', 3), ('replicate', 'narrow-tilted', 0), ('assign-none', 'o1', 1)]):
         out.append(dict(name=f"history:{how}:{cell}:dir{di}", family='history', how=how, pair=('C', 'C') if j % 2 == 0 else ('Zn', 'O'), dir=di, cell=cell, axes=[di % 3],
@@ -99,7 +108,7 @@ def body(ctx, p):
     u = u / np.linalg.norm(u)
     d = ctx.real('d', 0.2, p.get('dmax') or cut + 0.6)
     cell = None if p['cell'] is None else np.array(CELLS[p['cell']], dtype=float)
-    base = np.array([1.3, 1.7, 2.1])
+    base = np.array([1.3, 1.7, 2.1]) if not p.get('exact') else np.array([0.0, 0.0, 0.0])
     third = base + (np.array([0.5, 0.5, 0.5]).dot(cell) if cell is not None else np.array([9.0, 7.0, 8.0]))
     use_third = bool(p.get('third'))
     if use_third and cell is not None:
@@ -166,6 +175,9 @@ def body(ctx, p):
                         off = i_ * cell[0] + j_ * cell[1] + k_ * cell[2]
                         d2s.append(core.SUM([(d * float(u[c]) + float(off[c])) * (d * float(u[c]) + float(off[c])) for c in range(3)]))
         lo2, hi2 = (cut - eps) ** 2, (cut + eps) ** 2
+        if p.get('exact'):
+            ctx.require('exact rule at the cutoff: reported iff the distance is BELOW the cutoff (a distance equal to it is not a bond)',
+                        IFF(d < Fraction(float(DB.COVALENT_RADII[e1])) + Fraction(float(DB.COVALENT_RADII[e2])), pair in got), detail=dict(cut=cut))
         ctx.require('pair whose smallest image distance is clearly below the cutoff is reported', IMPLIES(OR(*[x <= lo2 for x in d2s]), pair in got), detail=dict(cut=cut))
         ctx.require('pair whose smallest image distance is clearly above the cutoff is not reported', IMPLIES(AND(*[x >= hi2 for x in d2s]), pair not in got), detail=dict(cut=cut))
     ctx.require('each pair once, as i<j', len(set(got)) == len(got) and all(i < j for i, j in got))
